@@ -32,6 +32,11 @@ func (l *lang) fn(src string) core.Value {
 	return f
 }
 
+// compileOnce compiles without caching.
+func compileOnce(src string) core.Value {
+	return compile.Constant(src)
+}
+
 // perr is a recovered panic: a Suneido-level error (string / *SuExcept /
 // error value) or a Go runtime error.
 type perr struct {
